@@ -59,7 +59,8 @@ def insert_trace_ok(tr, table, columns, row):
     """the effect trace is exactly: one single-record INSERT into `table` with `row` bound to `columns`, then commit"""
     tr = [e for e in tr if e.name.startswith("cursor.") or e.name.startswith("connection.")]     # reads of the result set aside
     return (len(tr) == 2 and tr[0].name == "cursor.execute" and tr[1].name == "connection.commit"
-            and tr[0].args[0].startswith("INSERT") and table_of(tr[0].args[0]) == table
+            # never OR REPLACE: a record that was acknowledged stays UNCHANGED when the same key is inserted again later
+            and tr[0].args[0].startswith("INSERT") and " OR REPLACE" not in tr[0].args[0].upper() and table_of(tr[0].args[0]) == table
             and columns_of(tr[0].args[0]) == columns and tr[0].args[1] == row
             and tr[0].args[0].count("?") == len(columns))
 
